@@ -34,7 +34,8 @@ def main():
         meta = {"meta_error": str(e)}
     wt = tempfile.mkdtemp(prefix="seedwt_")
     os.rmdir(wt)
-    res = {"property": prop, "candidate": cand, "agent_meta": meta, "ran": []}
+    head = sh(["git", "-C", "/repo", "log", "--format=%h", "-1"])[1].strip()
+    res = {"property": prop, "candidate": cand, "agent_meta": meta, "ran": [], "repo_commit": head}
     try:
         rc, out = sh(["git", "-C", "/repo", "worktree", "add", "-q", "--detach", wt, "HEAD"])
         assert rc == 0, out
@@ -107,6 +108,7 @@ def main():
             "our_checks": res["ran"],
             "caught": res["caught"],
             "confirmed_regression": confirmed,
+            "repo_commit": head,
         }
         json.dump(keep, open(os.path.join(dst, "meta.json"), "w"), indent=1)
         print(json.dumps({"name": name, "confirmed": confirmed, "caught": res["caught"],
